@@ -71,6 +71,8 @@ def _deleg_mixed(t, first):
 
 def _maint(n):
     m = MaintenanceInfo()
+    if n == 0:
+        return m            # a record without entries, handed over as constructed (not finalized by the caller)
     m.add('w1', MaintenanceEntry(state=MaintenanceState.Maint, deadline=datetime(2024, 1, 1, tzinfo=timezone.utc)))
     if n > 1:
         m.add('w2', MaintenanceEntry(state=MaintenanceState.PreMaint, expected_end=datetime(2024, 5, 5, 1, 2, 3)))
@@ -119,7 +121,7 @@ VOCAB = {
     'service_endpoint': [lambda: 'https://host:8080/path'],
     'site': [lambda: 'RENC', lambda: 'S 1'],
     'location': [lambda: Location(postal='100 Europa Dr'), lambda: Location(lat=0.0, lon=-79.05)],
-    'maintenance_info': [lambda: _maint(1), lambda: _maint(2)],
+    'maintenance_info': [lambda: _maint(1), lambda: _maint(2), lambda: _maint(0)],
     # service
     'layer': [lambda: NSLayer.L2, lambda: NSLayer.L3, lambda: NSLayer.L0, lambda: NSLayer.L1],
     'technology': [lambda: 'tech-1'],
@@ -303,7 +305,11 @@ def eval_flat(case):
         s = make(kind, typ=TYPES[kind][typ_i], props=props)
     except Exception as e:
         return {'v': [(f'setter-raises/{kind}', f'{type(e).__name__}: {e} {ctx}')], 'nt': None, 'out': 'raise'}
-    before = deep_fields(s, kind)
+    try:
+        before = deep_fields(s, kind)
+    except Exception as e:
+        # the setters accepted the values, but what they stored cannot even be read / encoded
+        return {'v': [(f'setter-result-unreadable/{kind}/{type(e).__name__}', f'{type(e).__name__}: {e} {ctx}')], 'nt': None, 'out': 'raise'}
     for path, fn, with_id in roundtrips(kind, s):
         try:
             back = fn()
